@@ -1066,7 +1066,7 @@ int main_run( int argc, char** argv, std::vector<Scenario>& all, Options const& 
     g_sc = static_cast<ScStat*>( mmap( nullptr, sizeof( ScStat ) * ns, PROT_READ | PROT_WRITE, MAP_SHARED | MAP_ANONYMOUS, -1, 0 ));
     for ( size_t i = 0; i < ns; ++i ) g_sc[i].bound_done.store( -1 );
 
-    int nstripes = g_cfg.stripes > 0 ? g_cfg.stripes : int( std::min<size_t>( 64, std::max<size_t>( 1, ( 4 * size_t( g_cfg.jobs ) + ns - 1 ) / ns )));
+    int nstripes = g_cfg.stripes > 0 ? g_cfg.stripes : 2 * g_cfg.jobs;   // root children are dealt round-robin to the stripes
     int maxbound = 0;
     std::vector<int> sb( ns );
     for ( size_t i = 0; i < ns; ++i ) { sb[i] = scenario_bound( scs[i], opt ); maxbound = std::max( maxbound, sb[i] ); }
